@@ -255,13 +255,19 @@ func TestC20(t *testing.T) {
 			rt.Fatalf("VIOLATION C20 the server died: %s", srv.LogTail(30))
 		}
 		pfx := fmt.Sprintf("c%d~", n)
+		// the case marker goes in front of the generated id or behind it, so that ids may also BEGIN with a
+		// separator, a space, a percent sign ...
+		mk := func(body string) string { return pfx + body }
+		if rapid.Bool().Draw(rt, "markerBehind") {
+			mk = func(body string) string { return body + "~" + pfx }
+		}
 		kind := rapid.IntRange(0, 9).Draw(rt, "case")
 		g := srv.Grpc()
 		ctx, cancel := context.WithTimeout(context.Background(), 8*time.Second)
 		defer cancel()
 		switch {
 		case kind <= 4: // ---- A: promise round trip ----
-			d := &datum{id: pfx + genId(rt, "id"), headers: genMapU(rt, "headers"), data: genBytes(rt, "data"), tags: genMapU(rt, "tags"), viaGrpc: rapid.Bool().Draw(rt, "viaGrpc")}
+			d := &datum{id: mk(genId(rt, "id")), headers: genMapU(rt, "headers"), data: genBytes(rt, "data"), tags: genMapU(rt, "tags"), viaGrpc: rapid.Bool().Draw(rt, "viaGrpc")}
 			delete(d.tags, "resonate:invoke")
 			d.timeout = rapid.SampledFrom([]int64{1<<63 - 1, 1 << 62, time.Now().UnixMilli() + 3600_000, 0, -1, -(1 << 63), 1, time.Now().UnixMilli() + 1}).Draw(rt, "timeout")
 			d.ikey = rapid.SampledFrom([]string{"", "k", "key with spaces", "ké😀", "%2F/\\"}).Draw(rt, "ikey")
@@ -326,12 +332,12 @@ func TestC20(t *testing.T) {
 			if len(stored) < 250 && !failed {
 				stored = append(stored, d)
 			}
-			if strings.IndexFunc(d.id[len(pfx):], func(r rune) bool { return r > 127 || !(r >= 'a' && r <= 'z' || r >= 'A' && r <= 'Z' || r >= '0' && r <= '9') }) >= 0 || len(d.data) > 1024 {
+			if strings.IndexFunc(strings.ReplaceAll(d.id, pfx, ""), func(r rune) bool { return r > 127 || !(r >= 'a' && r <= 'z' || r >= 'A' && r <= 'Z' || r >= '0' && r <= '9') }) >= 0 || len(d.data) > 1024 {
 				stats.Nontriv(d.id+string(d.data), map[string]any{"id": d.id, "data_bytes": len(d.data), "tags": d.tags, "headers": d.headers, "timeout": d.timeout, "written_via": map[bool]string{true: "grpc", false: "http"}[d.viaGrpc]})
 			}
 			stats.Class("promise-roundtrip")
 		case kind == 5: // ---- E: ids are compared exactly ----
-			base := pfx + genId(rt, "id")
+			base := mk(genId(rt, "id"))
 			variant := rapid.SampledFrom([]func(string) string{strings.ToUpper, strings.ToLower, func(s string) string { return s + " " }, func(s string) string { return s + "/" }, func(s string) string { return " " + s },
 				func(s string) string { return strings.ReplaceAll(s, "é", "é") }, func(s string) string { return strings.ReplaceAll(s, "/", "%2F") }, func(s string) string { return s + "​" }, func(s string) string { return strings.ReplaceAll(s, "~", "%7E") }}).Draw(rt, "variant")
 			other := variant(base)
@@ -359,7 +365,7 @@ func TestC20(t *testing.T) {
 			stats.Class("id-distinctness")
 			stats.Nontriv(base+"|"+other, map[string]any{"id": base, "variant": other})
 		case kind <= 7: // ---- B/C: dispatched messages ----
-			id := pfx + genId(rt, "id")
+			id := mk(genId(rt, "id"))
 			lid := "w" + fmt.Sprint(n)
 			l := listen(srv.Poll, "g", lid)
 			defer l.close()
@@ -414,7 +420,7 @@ func TestC20(t *testing.T) {
 			stats.Class("dispatched-messages")
 			stats.Nontriv(id+sid, map[string]any{"id": id, "subscription": sid, "invoke_body": truncate(body, 200)})
 		default: // ---- D: schedules ----
-			sid := pfx + genId(rt, "sid")
+			sid := mk(genId(rt, "sid"))
 			viaGrpc := rapid.Bool().Draw(rt, "viaGrpc")
 			pdata, ptags := genBytes(rt, "pdata"), genMapU(rt, "ptags")
 			delete(ptags, "resonate:invoke")
